@@ -40,6 +40,7 @@ class Recorder:
         self.streams = None          # per-handler random streams (C20): hid -> random.Random
         self.stream_seed = 0
         self.cur_stream = None
+        self.hid_instate = {}        # hid -> {identifier: (position, velocity, time stamp)} when its candidate was computed
         self.delays = {}             # hid -> (seconds before answering send_event_time, before answering send_out_state)
         self.max_legs = max_legs
         self.label = label
@@ -476,8 +477,8 @@ def install(recorder):
                 REC.emit("stage", hid=REC.hid(h) if h is not None else 0, to=value.name)
 
         def mk_start(orig):
-            def _start_processes(self):
-                orig(self)
+            def _start_processes(self, *a, **k):
+                orig(self, *a, **k)
                 self._event_handlers_state = StageDict(self, self._event_handlers_state)
                 for which, events in (("start", self._start_events), ("continue", self._send_out_state_events)):
                     for pipe, ev in events.items():
@@ -576,8 +577,11 @@ def install(recorder):
 
     # ---- activator
     def mk_run(orig):
-        def run(self, extracted_active_global_state, preceding_event_handler):
-            ret = orig(self, extracted_active_global_state, preceding_event_handler)
+        def run(self, *a, **k):
+            # arguments are passed through untouched (a wrapper must not pin down the signature of what it wraps)
+            ret = orig(self, *a, **k)
+            extracted_active_global_state = a[0] if a else k.get("extracted_active_global_state")
+            preceding_event_handler = a[1] if len(a) > 1 else k.get("preceding_event_handler")
             r = REC
             now = r.hid_time.get(r.hid(preceding_event_handler)) if preceding_event_handler is not None else None
             fresh = []
@@ -602,8 +606,9 @@ def install(recorder):
     wrap(TagActivator, "_get_event_handlers_to_run_update", mk_run)
 
     def mk_trash(orig):
-        def get_trashable_events(self, preceding_event_handler):
-            ret = orig(self, preceding_event_handler)
+        def get_trashable_events(self, *a, **k):
+            ret = orig(self, *a, **k)
+            preceding_event_handler = a[0] if a else k.get("preceding_event_handler")
             REC.emit("trash", prev=REC.hid(preceding_event_handler), hids=[REC.hid(h) for h in ret])
             return ret
         return get_trashable_events
@@ -612,16 +617,18 @@ def install(recorder):
     # ---- scheduler
     for sched in (HeapScheduler, ListScheduler):
         def mk_push(orig):
-            def push_event(self, time, event_handler):
-                orig(self, time, event_handler)
+            def push_event(self, *a, **k):
+                orig(self, *a, **k)
+                time = a[0] if a else k.get("time")
+                event_handler = a[1] if len(a) > 1 else k.get("event_handler")
                 REC.hid_time[REC.hid(event_handler)] = time
                 REC.emit("push", hid=REC.hid(event_handler), t=tkey(time))
             return push_event
 
         def mk_get(orig):
-            def get_succeeding_event(self):
+            def get_succeeding_event(self, *a, **k):
                 try:
-                    ret = orig(self)
+                    ret = orig(self, *a, **k)
                 except Exception as e:
                     REC.emit("next", hid=0, err=type(e).__name__, t=[list(NAN), list(NAN)])
                     raise
@@ -634,9 +641,10 @@ def install(recorder):
             return get_succeeding_event
 
         def mk_strash(orig):
-            def trash_event(self, event_handler):
+            def trash_event(self, *a, **k):
+                event_handler = a[0] if a else k.get("event_handler")
                 try:
-                    orig(self, event_handler)
+                    orig(self, *a, **k)
                 except Exception as e:
                     REC.emit("strash", hid=REC.hid(event_handler), err=type(e).__name__)
                     raise
@@ -648,21 +656,23 @@ def install(recorder):
 
     # ---- state handler: outermost insert = commit
     def mk_insert(orig):
-        def insert_into_global_state(self, extracted_global_state):
+        def insert_into_global_state(self, *a, **k):
             r = REC
+            extracted_global_state = a[0] if a else k.get("extracted_global_state")
             if r.depth_insert > 0 or r.mediator is None:
-                return orig(self, extracted_global_state)
+                return orig(self, *a, **k)
             r.depth_insert += 1
             try:
                 before_nodes = {tuple(n.value.identifier): n.value for n in r.walk(self.extract_global_state())}
                 before_vals = {i: (list(u.position), None if u.velocity is None else list(u.velocity), u.time_stamp
                                    and (u.time_stamp.quotient, u.time_stamp.remainder)) for i, u in before_nodes.items()}
                 before = r.full_state()
-                orig(self, extracted_global_state)
+                orig(self, *a, **k)
                 after = r.full_state()
                 written = r.states(extracted_global_state)
                 res = r.residuals(before_vals, extracted_global_state)
-                r.emit("commit", before=before, after=after, units=written, res=res, c12=r.c12_residuals(), **r.drain_descs())
+                r.emit("commit", before=before, after=after, units=written, res=res, c12=r.c12_residuals(),
+                       c08=r.same_trajectory(before_vals), **r.drain_descs())
             finally:
                 r.depth_insert -= 1
         return insert_into_global_state
@@ -670,7 +680,7 @@ def install(recorder):
 
     # ---- event handlers
     def mk_time(orig):
-        def send_event_time(self, *args):
+        def send_event_time(self, *args, **kw):
             r = REC
             hid = r.hid(self)
             instate = r.states(args[0]) if args and args[0] is not None else []
@@ -680,10 +690,17 @@ def install(recorder):
                     if n.value.time_stamp is not None:
                         pre_ts[tuple(n.value.identifier)] = (n.value.time_stamp.quotient, n.value.time_stamp.remainder)
             r.pre_ts = pre_ts
+            if hid and args and args[0] is not None:
+                # the in-state as it was when this candidate was computed (C08: still the trajectory at commit time?)
+                r.hid_instate[hid] = {tuple(n.value.identifier): (list(n.value.position),
+                                                                  None if n.value.velocity is None else list(n.value.velocity),
+                                                                  n.value.time_stamp and (n.value.time_stamp.quotient,
+                                                                                          n.value.time_stamp.remainder))
+                                      for n in r.walk(args[0])}
             outer, r.ctx = r.ctx, []
             outer_stream, r.cur_stream = r.cur_stream, r.stream_of(hid)
             try:
-                ret = orig(self, *args)
+                ret = orig(self, *args, **kw)
             finally:
                 events, r.ctx = r.ctx, outer
                 r.cur_stream = outer_stream
@@ -697,14 +714,14 @@ def install(recorder):
         return send_event_time
 
     def mk_out(orig):
-        def send_out_state(self, *args):
+        def send_out_state(self, *args, **kw):
             r = REC
             hid = r.hid(self)
             outer, r.ctx = r.ctx, []
             argstates = [r.states(a if isinstance(a, (list, tuple)) else [a]) for a in args]
             outer_stream, r.cur_stream = r.cur_stream, r.stream_of(hid)
             try:
-                ret = orig(self, *args)
+                ret = orig(self, *args, **kw)
             finally:
                 events, r.ctx = r.ctx, outer
                 r.cur_stream = outer_stream
@@ -733,7 +750,7 @@ def install(recorder):
 
     # ---- output
     def mk_write(orig):
-        def write(self, output_handler, *args):
+        def write(self, output_handler, *args, **kw):
             r = REC
             kind = "other"
             state = []
@@ -744,7 +761,7 @@ def install(recorder):
                 kind = "state"
             elif args and args[0] is r.mediator:
                 kind = "dump"
-            ret = orig(self, output_handler, *args)
+            ret = orig(self, output_handler, *args, **kw)
             dump = 0
             if kind == "dump":
                 dump = r.save_dump_copy(self._output_handlers_dictionary[output_handler])
@@ -808,31 +825,34 @@ def install(recorder):
                 mod.bounding_potential_warning = warn
 
     def mk_insert_l(orig):
-        def insert(self, lifting_rate, associated_identifier, is_active):
+        def insert(self, *a, **k):
+            lifting_rate = a[0] if a else k.get("lifting_rate")
+            associated_identifier = a[1] if len(a) > 1 else k.get("associated_identifier")
+            is_active = a[2] if len(a) > 2 else k.get("is_active")
             log("linsert", lifting_rate, tuple(associated_identifier), bool(is_active))
-            return orig(self, lifting_rate, associated_identifier, is_active)
+            return orig(self, *a, **k)
         return insert
     wrap(Lifting, "insert", mk_insert_l)
 
     def mk_reset_l(orig):
-        def reset(self):
+        def reset(self, *a, **k):
             log("lreset")
-            return orig(self)
+            return orig(self, *a, **k)
         return reset
     wrap(Lifting, "reset", mk_reset_l)
     for cls in Lifting.__subclasses__():
         if "get_active_identifier" in cls.__dict__:
             def mk_get_l(orig, cname=cls.__name__):
-                def get_active_identifier(self):
-                    ret = orig(self)
+                def get_active_identifier(self, *a, **k):
+                    ret = orig(self, *a, **k)
                     log("lget", cname, tuple(ret))
                     return ret
                 return get_active_identifier
             wrap(cls, "get_active_identifier", mk_get_l)
 
     def mk_sample(orig):
-        def sample_cell(self):
-            ret = orig(self)
+        def sample_cell(self, *a, **k):
+            ret = orig(self, *a, **k)
             log("walker", id(self), ret)
             return ret
         return sample_cell
@@ -977,6 +997,37 @@ def _residuals(self, before_vals, out_nodes):
 
 
 Recorder.residuals = _residuals
+
+
+def _same_trajectory(self, before_vals):
+    """C08, measured: for every unit of the in-state from which the committing handler computed its candidate, is the unit in
+    the global state (just before the commit) still on that trajectory?  [uid, velocity equal, distance from the line in units
+    of 2^-30 L (-1: resting unit, position must be equal: 0 / 10^9)]"""
+    h = getattr(self.mediator, "_event_handler_with_shortest_event_time", None)
+    then = self.hid_instate.get(self.hid(h)) if h is not None else None
+    if not then:
+        return []
+    out = []
+    Ls = [Fraction(x) for x in self.L]
+    for ident, (p0, v0, t0) in then.items():
+        if ident not in before_vals:
+            continue
+        p1, v1, t1 = before_vals[ident]
+        veq = int(v0 == v1)
+        if v0 is None or v1 is None or t0 is None or t1 is None:
+            dist = 0 if p0 == p1 else 10 ** 9
+        else:
+            dt = (Fraction(t1[0]) + Fraction(t1[1])) - (Fraction(t0[0]) + Fraction(t0[1]))
+            worst = Fraction(0)
+            for d in range(len(p0)):
+                diff = (Fraction(p1[d]) - Fraction(p0[d]) - Fraction(v0[d]) * dt) % Ls[d]
+                worst = max(worst, min(diff, Ls[d] - diff) / Ls[d])
+            dist = min(10 ** 9, int(math.ceil(worst * 2 ** 30)))
+        out.append([self.uid(ident), veq, dist])
+    return out
+
+
+Recorder.same_trajectory = _same_trajectory
 
 
 def _c12(self):
